@@ -156,16 +156,12 @@ def replay(root, fs, run, want_power=True, on_access=None):
     points = []
     cur_op, phase = None, 'pre'
     acked = {}
-    stats = {'validated': 0, 'calls': 0, 'mutations': 0, 'capped': False}
+    stats = {'validated': 0, 'calls': 0, 'mutations': 0, 'capped': False, 'foreign': 0}
     for idx in range(start + 1, len(run.calls)):
         c = run.calls[idx]
-        if c.tid != tid:
-            # other threads of the driver process (Go runtime) must not touch the tree
-            if c.name in ('openat', 'renameat', 'unlinkat', 'write', 'mkdirat'):
-                pa = [strace.unq(a) for a in c.args if a.startswith('"')]
-                if any(p and p.decode('latin1').startswith(root) for p in pa):
-                    raise TraceError('store touched from a second thread: ' + c.raw[:200])
-            continue
+        foreign = c.tid != tid
+        if foreign and c.name == 'faccessat' and (strace.unq(c.args[1]) or b'').startswith(b'/MARK/'):
+            raise TraceError('marker call from a second thread (the driver pins its goroutine to one thread)')
         if c.name == 'faccessat':
             p = strace.unq(c.args[1]) or b''
             if p.startswith(b'/MARK/'):
@@ -210,6 +206,14 @@ def replay(root, fs, run, want_power=True, on_access=None):
             mut, desc, paths = fs.apply(c)
         except ModelError as e:
             raise TraceError('model error at trace line %d: %s' % (c.lineno, e))
+        if foreign:
+            # other threads of the driver process: the Go runtime's own threads never touch the tree;
+            # code under test that hands file-system work to a goroutine does.  Such calls are applied
+            # in the order of their completion like all others and counted.
+            if mut or desc:
+                stats['foreign'] += 1
+            elif not any(p and str(p).startswith(root) for p in paths):
+                continue
         if on_access:
             on_access(cur_op, phase, c, mut, desc, paths)
         if not mut:
